@@ -33,6 +33,7 @@ impl BigUint {
 //@ stub k_sub/sub2
 //@ stub k_sub/sub2rev
 //@ stub k_mul/scalar_mul
+//@ stub k_mul/mul3
 
 pub proof fn lemma_val2(lo: u64, hi: u64)
     ensures val(seq![lo, hi]) == (lo as nat) + B() * (hi as nat)
@@ -440,6 +441,108 @@ impl Sub<BigUint> for u64 {
 //@ end
 }
 
+
+// ------------------------------------------------------------------ BigUint - scalar (by value)
+impl SubSpecImpl<u32> for BigUint {
+    open spec fn obeys_sub_spec() -> bool { false }
+    open spec fn sub_req(self, rhs: u32) -> bool { self.wf() && (!mp() ==> self.v() >= rhs as nat) }
+    open spec fn sub_spec(self, rhs: u32) -> BigUint { arbitrary() }
+}
+impl Sub<u32> for BigUint {
+    type Output = BigUint;
+//@ extract src/biguint/subtraction.rs :: impl Sub<u32> for BigUint :: fn sub rules=R0,R5 props=C10,C01,C14 label=sub_u32
+    fn sub(self, other: u32) -> /*+*/(r: /*-*/BigUint/*+*/)/*-*/
+//+{
+        ensures r.wf(), mp() ==> self.v() >= other as nat, r.v() + other as nat == self.v()
+//+}
+    {
+        let mut self__ = self;
+        self__ -= other;
+        self__
+    }
+//@ end
+}
+impl SubSpecImpl<u64> for BigUint {
+    open spec fn obeys_sub_spec() -> bool { false }
+    open spec fn sub_req(self, rhs: u64) -> bool { self.wf() && (!mp() ==> self.v() >= rhs as nat) }
+    open spec fn sub_spec(self, rhs: u64) -> BigUint { arbitrary() }
+}
+impl Sub<u64> for BigUint {
+    type Output = BigUint;
+//@ extract src/biguint/subtraction.rs :: impl Sub<u64> for BigUint :: fn sub rules=R0,R5 props=C10,C01,C14 label=sub_u64
+    fn sub(self, other: u64) -> /*+*/(r: /*-*/BigUint/*+*/)/*-*/
+//+{
+        ensures r.wf(), mp() ==> self.v() >= other as nat, r.v() + other as nat == self.v()
+//+}
+    {
+        let mut self__ = self;
+        self__ -= other;
+        self__
+    }
+//@ end
+}
+impl SubSpecImpl<u128> for BigUint {
+    open spec fn obeys_sub_spec() -> bool { false }
+    open spec fn sub_req(self, rhs: u128) -> bool { self.wf() && (!mp() ==> self.v() >= rhs as nat) }
+    open spec fn sub_spec(self, rhs: u128) -> BigUint { arbitrary() }
+}
+impl Sub<u128> for BigUint {
+    type Output = BigUint;
+//@ extract src/biguint/subtraction.rs :: impl Sub<u128> for BigUint :: fn sub rules=R0,R5 props=C10,C01,C14 label=sub_u128
+    fn sub(self, other: u128) -> /*+*/(r: /*-*/BigUint/*+*/)/*-*/
+//+{
+        ensures r.wf(), mp() ==> self.v() >= other as nat, r.v() + other as nat == self.v()
+//+}
+    {
+        let mut self__ = self;
+        self__ -= other;
+        self__
+    }
+//@ end
+}
+
+impl SubSpecImpl<BigUint> for u128 {
+    open spec fn obeys_sub_spec() -> bool { false }
+    open spec fn sub_req(self, rhs: BigUint) -> bool { sub_left_req(self as nat, rhs) }
+    open spec fn sub_spec(self, rhs: BigUint) -> BigUint { arbitrary() }
+}
+impl Sub<BigUint> for u128 {
+    type Output = BigUint;
+//@ extract src/biguint/subtraction.rs :: impl Sub<BigUint> for u128 :: fn sub rules=R0,R7o props=C10,C01,C04,C14 label=u128_sub_big
+    fn sub(self, mut other: BigUint) -> /*+*/(r: /*-*/BigUint/*+*/)/*-*/
+//+{
+        ensures r.wf(), mp() ==> self as nat >= other.v(), r.v() + other.v() == self as nat
+//+}
+    {
+//+{
+        let ghost ov = other.v();
+//+}
+        while other.data.len() < 2
+//+{
+            invariant val(other.data@) == ov
+            decreases 2 - other.data.len()
+//+}
+        {
+//+{
+            proof { lemma_val_pad(other.data@); }
+//+}
+            other.data.push(0);
+        }
+
+        let (hi, lo) = big_digit::from_doublebigdigit(self);
+//+{
+        proof {
+            assert([lo, hi]@ =~= seq![lo, hi]);
+            lemma_val2(lo, hi);
+            assert(other.data@.subrange(0, other.data@.len() as int) =~= other.data@);
+        }
+//+}
+        sub2rev(&[lo, hi], &mut other.data.as_mut_slice()[..]);
+        other.normalized()
+    }
+//@ end
+}
+
 // ------------------------------------------------------------------ multiplication
 impl MulAssignSpecImpl<u32> for BigUint {
     open spec fn obeys_mul_assign_spec() -> bool { false }
@@ -501,6 +604,56 @@ impl Mul<u64> for BigUint {
     type Output = BigUint;
 //@ extract src/biguint/multiplication.rs :: impl Mul<u64> for BigUint :: fn mul rules=R0,R5 props=C10,C02 label=mul_u64
     fn mul(self, other: u64) -> /*+*/(r: /*-*/BigUint/*+*/)/*-*/
+//+{
+        ensures r.wf(), r.v() == self.v() * (other as nat)
+//+}
+    {
+        let mut self__ = self;
+        self__ *= other;
+        self__
+    }
+//@ end
+}
+
+//@ assume __digit_from_u128 : num_traits `<u64 as FromPrimitive>::from_u128` (external crate): Some(x) iff x fits in u64 (rule R12g)
+#[verifier::external_body]
+fn __digit_from_u128(x: u128) -> (r: Option<u64>)
+    ensures r is Some <==> x <= u64::MAX as u128, r is Some ==> r.unwrap() as u128 == x
+{ unimplemented!() }
+
+impl MulAssignSpecImpl<u128> for BigUint {
+    open spec fn obeys_mul_assign_spec() -> bool { false }
+    open spec fn mul_assign_req(&self, rhs: u128) -> bool { self.wf() }
+    open spec fn mul_assign_spec(&self, rhs: u128) -> &BigUint { arbitrary() }
+}
+impl MulAssign<u128> for BigUint {
+//@ extract src/biguint/multiplication.rs :: impl MulAssign<u128> for BigUint :: fn mul_assign rules=R0,R12g props=C10,C02 label=mul_assign_u128
+    fn mul_assign(&mut self, other: u128)
+//+{
+        ensures final(self).wf(), final(self).v() == old(self).v() * (other as nat)
+//+}
+    {
+        if let Some(other) = __digit_from_u128(other) {
+            scalar_mul(self, other);
+        } else {
+            let (hi, lo) = big_digit::from_doublebigdigit(other);
+//+{
+            proof { assert([lo, hi]@ =~= seq![lo, hi]); lemma_val2(lo, hi); axiom_vec_u64_len(&self.data); }
+//+}
+            *self = mul3(&self.data, &[lo, hi]);
+        }
+    }
+//@ end
+}
+impl MulSpecImpl<u128> for BigUint {
+    open spec fn obeys_mul_spec() -> bool { false }
+    open spec fn mul_req(self, rhs: u128) -> bool { self.wf() }
+    open spec fn mul_spec(self, rhs: u128) -> BigUint { arbitrary() }
+}
+impl Mul<u128> for BigUint {
+    type Output = BigUint;
+//@ extract src/biguint/multiplication.rs :: impl Mul<u128> for BigUint :: fn mul rules=R0,R5 props=C10,C02 label=mul_u128
+    fn mul(self, other: u128) -> /*+*/(r: /*-*/BigUint/*+*/)/*-*/
 //+{
         ensures r.wf(), r.v() == self.v() * (other as nat)
 //+}
